@@ -24,7 +24,19 @@ type (
 	}
 )
 
+// save writes the snapshot to a temporary file and renames it over fileName
+// only when it is complete, so that a crash at any point leaves either the
+// previous snapshot or the new one on disk, never a truncated file.
 func (ds *dataStore) save(fileName string) (err error) {
+	tmpName := fileName + ".tmp"
+	if err = ds.saveTo(tmpName); err != nil {
+		os.Remove(tmpName)
+		return
+	}
+	return os.Rename(tmpName, fileName)
+}
+
+func (ds *dataStore) saveTo(fileName string) (err error) {
 	// open output file
 	f, err := os.Create(fileName)
 	if err != nil {
